@@ -78,6 +78,22 @@ let run = function
      | Err e -> "err " ^ err_txt e
      | Panic _ -> "panic"
      | OutOfFuel -> "hang")
+  | ["enc"; proto; kind; id; cap; vals] ->
+    let (codecs, _) = tables proto in
+    let k = (match kind with "sys" -> KSystem | "game" -> KGame | _ -> KConnless) in
+    (match find_codec codecs k (parse_id id) with
+     | None -> "model-no-such-codec"
+     | Some c ->
+       let value s =
+         let body = String.sub s 1 (String.length s - 1) in
+         match s.[0] with
+         | 'i' -> VInt (z_of_int (int_of_string body))
+         | 'b' -> VBool (body = "1")
+         | 's' -> VBytes (unhex body)
+         | 'n' -> VNone
+         | _ -> VUnit in
+       let vs = List.map value (List.filter (fun s -> s <> "") (split_on ' ' vals)) in
+       enc_txt (encode_msg c vs (nat_of_int (int_of_string cap))))
   | ["size"; proto; ty] ->
     let (_, objs) = tables proto in
     (match obj_size objs (z_of_int (int_of_string ty)) with
